@@ -5,7 +5,7 @@
    The writer passes the WIDTH OF THE LENGTH PREFIX (LengthBytes: -1, 1 or 4) where DataType.Bytes expects the
    length of the value; the consequences per data type are tabulated in [key_class] (checked against the code
    by the harness).  The Go value itself is not part of the field tree: its conversion is the data type layer's
-   business; the decoder result keeps the raw value bytes instead. *)
+   business; the decoder result keeps the raw value bytes instead (see [key_tree] for what is compared). *)
 From Coq Require Import ZArith List Bool Lia.
 Import ListNotations.
 From V Require Import Base.Tree Base.Bytes Base.BytesFacts Base.Parser Base.ParserFacts Pkg.GenTypes Gen.GenPkg.
@@ -93,8 +93,21 @@ Proof.
     rewrite (bind_ok _ _ _ _ _ (take_app _ _)). rewrite key_panics_false, Hv. reflexivity.
 Qed.
 
-(* field trees.  decode: (dt); encode: (dt has_value raw) *)
-Definition key_tree (x : Z * bytes) : tree := TL [TI (fst x)].
+(* field trees.  encode: (dt has_value raw).
+   decode: (dt view bytes) where view describes pkg.Value as far as it can be observed without the data type layer:
+     0 nil;  1 a Go integer / float / bool / string / []byte, rendered as its little-endian bytes;
+     2 a *Decimal or time.Time or a UNITEXT string (not rendered). *)
+Definition key_view (dt len : Z) : Z :=
+  if (dt =? 174) && (len =? 0) then 0
+  else match key_class dt len with 0 => 0 | 1 => 1 | 2 => 1 | _ => 2 end.
+Definition key_view_bytes (dt : Z) (raw : bytes) : bytes :=
+  match key_class dt (zlen raw) with
+  | 1 => if (dt =? 174) then [] else raw
+  | 2 => [if list_Z_eqb raw [1] then 1 else 0]
+  | _ => []
+  end.
+Definition key_tree (x : Z * bytes) : tree :=
+  TL [TI (fst x); TI (key_view (fst x) (zlen (snd x))); TB (key_view_bytes (fst x) (snd x))].
 Definition key_ctx_dt (ctx : tree) : Z := t_int (t_nth 0 ctx).
 Definition key_enc_of_tree (t : tree) : kres :=
   enc_key (t_int (t_nth 0 t)) (t_bool (t_nth 1 t)) (t_bytes (t_nth 2 t)).
